@@ -44,7 +44,11 @@ pub struct Lit {
 
 const SIZE_UNITS: [(&str, u32); 9] = [("b", 0), ("kb", 1), ("mb", 2), ("gb", 3), ("tb", 4), ("kib", 1), ("mib", 2), ("gib", 3), ("tib", 4)];
 const TIME_UNITS: [&str; 14] = ["second", "seconds", "minute", "minutes", "hour", "hours", "day", "days", "week", "weeks", "month", "months", "year", "years"];
-const JUNK_UNITS: [&str; 14] = ["kbb", "k b", "das", "µs", "kbs", "bytes", "sec", "hrs", "k", "x", "secondss", "kb1", "_", "e"];
+const JUNK_UNITS: [&str; 24] = [
+    "kbb", "k b", "das", "µs", "kbs", "bytes", "sec", "hrs", "k", "x", "secondss", "kb1", "_", "e",
+    // characters that case-fold onto ASCII letters (KELVIN SIGN -> k, LONG S -> s, dotless/dotted i)
+    "\u{212A}b", "\u{212A}iB", "\u{17F}econds", "m\u{131}nutes", "m\u{130}nutes", "week\u{17F}", "M\u{212A}", "\u{ff4b}\u{ff42}", "ｋｂ", "𝐤𝐛",
+];
 
 fn randcase(s: &str, mask: u32) -> String {
     s.chars().enumerate().map(|(i, c)| if (mask >> (i % 32)) & 1 == 1 { c.to_ascii_uppercase() } else { c }).collect()
@@ -79,7 +83,7 @@ pub fn strategy() -> impl Strategy<Value = Lit> {
         number_strategy(),
         prop_oneof![8 => Just(Deco::None), 1 => Just(Deco::Minus), 1 => Just(Deco::Plus), 1 => Just(Deco::Fraction), 1 => Just(Deco::Exponent), 1 => Just(Deco::LeadingZeros)],
         prop::sample::select(vec!["", "", " ", "  ", "\t", " \t "]),
-        prop_oneof![3 => Just(0u8), 8 => Just(1u8), 2 => Just(2u8)],
+        prop_oneof![3 => Just(0u8), 8 => Just(1u8), 2 => Just(2u8), 1 => Just(3u8)],
         any::<u16>(),
         any::<u32>(),
         prop_oneof![6 => Just(("", "")), 1 => Just((" ", "")), 1 => Just(("", " ")), 1 => Just(("\t", " "))],
@@ -95,7 +99,9 @@ pub fn strategy() -> impl Strategy<Value = Lit> {
                         randcase(pick(&SIZE_UNITS[..], ui).0, mask)
                     }
                 }
-                _ => pick(&JUNK_UNITS[..], ui).to_string(),
+                2 => pick(&JUNK_UNITS[..], ui).to_string(),
+                // long junk: ASCII padding of 24..40 bytes followed by multi-byte characters (straddling byte 32, 64)
+                _ => format!("{}{}", "x".repeat(24 + (ui as usize % 17)), ["é", "漢", "😀", "é漢😀é漢😀é漢😀é漢😀"][(mask % 4) as usize]),
             };
             // a YAML plain scalar without a unit is a number for YAML itself: only literals with a unit are "textual"
             let textual = !unit.is_empty();
@@ -299,6 +305,8 @@ pub fn check(l: &Lit, obs: &mut Obs) -> CaseResult {
     obs.class_if(!l.gap.is_empty(), "whitespace-before-unit");
     obs.class_if(scalar && n > i64::MAX as u128, "integer-scalar-above-i64-max");
     obs.class_if(JUNK_UNITS.contains(&l.unit.as_str()), "junk-unit");
+    obs.class_if(l.unit.len() > 24, "long-junk-unit");
+    obs.class_if(!l.unit.is_ascii(), "non-ascii-unit");
     Ok(())
 }
 
